@@ -6,7 +6,7 @@ from pathlib import Path
 
 import numpy as np
 
-POOL_ORDER = ["a.ljson", "a.png", "a.pts", "b.bmp", "b.pts", "m.pkl", "n.pkl.gz", "notes.txt", "sub/d.png", "sub/d.pts"]
+POOL_ORDER = ["a.ljson", "a.png", "a.pts", "ab.pts", "b.bmp", "b.pts", "m.pkl", "n.pkl.gz", "notes.txt", "sub/d.png", "sub/d.pts"]
 _SORT_OK = {}
 
 
